@@ -171,7 +171,7 @@ def run_property(prop, tier="quick", repo_root="/repo", seed=0, only=None, verbo
         obs = {}
         for k, (pth, sname, terms) in enumerate(ob.extra.get("observables", [])):
             if ("obs!%d" % k) in model:
-                obs[pth] = dict(sort=sname, value=model["obs!%d" % k])
+                obs[pth] = dict(sort=sname.replace("=const", ""), value=model["obs!%d" % k])
         from .values import ATOMS
         atoms = {str(c): n for c, n in ATOMS.names.items()}
         replay = dict(
@@ -335,7 +335,7 @@ def standin_spec(c, r, repo, seed, n):
     return dict(
         function=c.qual, requires=[_ast.unparse(n) for _, n in c.requires], ensures=[[l, _ast.unparse(n)] for l, n in c.ensures],
         raises=[dict(exc=x["exc"], when=_ast.unparse(x["when"]) if x["when"] is not None else None, iff=x["iff"]) for x in c.raises],
-        observables=[[p, s] for p, s, t in r.observables], atoms={str(k): v for k, v in ATOMS.names.items()}, atom_pool=pool,
+        observables=[[p, s] + ([str(t[0])] if s.endswith("=const") else []) for p, s, t in r.observables], atoms={str(k): v for k, v in ATOMS.names.items()}, atom_pool=pool,
         num_pool=[str(_F(x)) for x in sorted(nums)][:40], n=n, seed=seed,
     )
 
